@@ -163,6 +163,7 @@ Lemma add_deposit_ok_inv : forall P kf now s pid dep amt bd s',
                     gov_spent := gov_spent s |}.
 Proof.
   unfold add_deposit. intros until s'. destruct (find_prop pid (props s)) as [p|]; [|discriminate].
+  destruct (is_bad (p_status p)); [discriminate|].
   destruct (is_removed (p_status p)); [discriminate|].
   destruct (is_open (p_status p)) eqn:Ho; cbn [negb]; [|discriminate].
   destruct bd; [discriminate|].
@@ -171,10 +172,19 @@ Proof.
   intro H; inversion H; subst. exists p. repeat split; auto. apply Z.ltb_ge in Hb. lia.
 Qed.
 
+Lemma add_deposit_ok_notbad : forall P kf now s pid dep amt bd s' p,
+  add_deposit P kf now s pid dep amt bd = (ROk, s') -> find_prop pid (props s) = Some p ->
+  is_bad (p_status p) = false.
+Proof.
+  unfold add_deposit. intros until p. intros H Hf. rewrite Hf in H.
+  destruct (is_bad (p_status p)); [discriminate|reflexivity].
+Qed.
+
 Lemma add_deposit_err : forall P kf now s pid dep amt bd r s',
   add_deposit P kf now s pid dep amt bd = (r, s') -> r <> ROk -> s' = s.
 Proof.
   unfold add_deposit. intros until s'. destruct (find_prop pid (props s)) as [p|]; [|intros H; inversion H; auto].
+  destruct (is_bad (p_status p)); [intros H; inversion H; auto|].
   destruct (is_removed (p_status p)); [intros H; inversion H; auto|].
   destruct (negb (is_open (p_status p))); [intros H; inversion H; auto|].
   destruct bd; [intros H; inversion H; auto|].
@@ -247,15 +257,14 @@ Qed.
 (* ------------------------------------------------------------------ Vote *)
 Lemma vote_props : forall s pid voter opts w r s',
   vote s pid voter opts w = (r, s') ->
-  s' = s \/ exists p, find_prop pid (props s) = Some p /\ p_status p = SVoting /\
+  s' = s \/ exists p, find_prop pid (props s) = Some p /\ (p_status p = SVoting \/ p_status p = SBadVoting) /\
                       s' = set_props s (upd_prop pid (fun q => with_votes q (set_vote voter opts (p_votes q))) (props s)).
 Proof.
   unfold vote. intros until s'.
   match goal with |- context [match ?b with Some e => _ | None => _ end = _] => destruct b end;
     [intros H; inversion H; auto|].
   destruct (find_prop pid (props s)) as [p|] eqn:Hf; [|intros H; inversion H; auto].
-  destruct (p_status p) eqn:Hs; intros H; inversion H; auto.
-  right. exists p. auto.
+  destruct (p_status p) eqn:Hs; intros H; inversion H; auto; right; exists p; auto.
 Qed.
 
 Lemma vote_wf : forall s pid voter opts w r s', wf s -> vote s pid voter opts w = (r, s') -> wf s'.
@@ -338,6 +347,7 @@ Lemma cancel_inv : forall P now s pid proposer r s' ev,
 Proof.
   unfold cancel. intros until ev.
   destruct (find_prop pid (props s)) as [p|] eqn:Hf; [|intros H; inversion H; left; repeat split; auto; discriminate].
+  destruct (is_bad (p_status p)); [intros H; inversion H; left; repeat split; auto; discriminate|].
   destruct (is_removed (p_status p)); [intros H; inversion H; left; repeat split; auto; discriminate|].
   destruct (negb (p_proposer p =? proposer)); [intros H; inversion H; left; repeat split; auto; discriminate|].
   destruct (is_open (p_status p)) eqn:Ho; cbn [negb]; [|intros H; inversion H; left; repeat split; auto; discriminate].
@@ -380,16 +390,28 @@ Proof.
 Qed.
 
 (* ------------------------------------------------------------------ end blocker *)
+Lemma pay_close_wf : forall s p id burn s1 ev st,
+  wf s -> find_prop id (props s) = Some p -> is_open (p_status p) = true ->
+  pay_out s p burn = Some (s1, ev) -> is_open st = false ->
+  wf (set_props s1 (upd_prop id (fun q => close_as q st) (props s1))).
+Proof.
+  intros until st. intros W Hf Ho Hp Hc.
+  apply pay_out_some in Hp as (A & B & C & D & _ & _ & Hle & _).
+  eapply close_step_wf with (s := s) (p := p); eauto;
+    try lia; try (destruct W; lia); try (intros q; repeat split; reflexivity).
+Qed.
+
 Lemma process_inactive_wf : forall P s id s' ev,
   wf s -> process_inactive P s id = Some (s', ev) -> wf s'.
 Proof.
   unfold process_inactive. intros until ev. intros W.
   destruct (find_prop id (props s)) as [p|] eqn:Hf; [|intro H; inversion H; subst; assumption].
-  destruct (p_status p) eqn:Hs; try (intro H; inversion H; subst; assumption).
-  destruct (pay_out s p (burn_prevote P)) as [[s1 e1]|] eqn:Hp; [|discriminate].
-  intro H; inversion H; subst. apply pay_out_some in Hp as (A & B & C & D & _ & _ & Hle & _).
-  eapply close_step_wf with (s := s) (p := p); eauto;
-    try (rewrite Hs; reflexivity); try lia; try (destruct W; lia); try (intros q; repeat split; reflexivity).
+  destruct (p_status p) eqn:Hs; try solve [intro H; inversion H; subst; assumption]; try discriminate.
+  - destruct (pay_out s p (burn_prevote P)) as [[s1 e1]|] eqn:Hp; [|discriminate].
+    intro H; inversion H; subst. eapply pay_close_wf; eauto. rewrite Hs; reflexivity.
+  - destruct (pay_out s p false) as [[s1 e1]|] eqn:Hp; [|discriminate].
+    intro H; inversion H; subst. eapply pay_close_wf; eauto; [rewrite Hs; reflexivity|].
+    destruct (bad_inactive_dequeued P); reflexivity.
 Qed.
 
 Lemma process_active_wf : forall P kf stk s id s' ev,
@@ -397,7 +419,10 @@ Lemma process_active_wf : forall P kf stk s id s' ev,
 Proof.
   unfold process_active. intros until ev. intros W.
   destruct (find_prop id (props s)) as [p|] eqn:Hf; [|intro H; inversion H; subst; assumption].
-  destruct (p_status p) eqn:Hs; try (intro H; inversion H; subst; assumption).
+  destruct (p_status p) eqn:Hs; try solve [intro H; inversion H; subst; assumption].
+  2:{ destruct (bad_active_dequeued_by_key P); [|discriminate].
+      destruct (pay_out s p false) as [[s1 e1]|] eqn:Hp; [|discriminate].
+      intro H; inversion H; subst. eapply pay_close_wf; eauto. rewrite Hs; reflexivity. }
   set (v := tally P kf (custom s) stk p).
   destruct (p_expedited p && negb (passes v)).
   { intro H; inversion H; subst. eapply keep_step_wf with (p := p); eauto;
@@ -441,6 +466,26 @@ Proof.
   - intros; eapply process_inactive_wf; eauto.
 Qed.
 
+(* ------------------------------------------------------------------ a record becomes undecodable *)
+Lemma corrupt_inv : forall s pid r s',
+  corrupt s pid = (r, s') ->
+  s' = s \/ exists p st, find_prop pid (props s) = Some p /\
+                         (p_status p = SDeposit /\ st = SBadDeposit \/ p_status p = SVoting /\ st = SBadVoting) /\
+                         s' = set_props s (upd_prop pid (fun q => with_status q st) (props s)).
+Proof.
+  unfold corrupt. intros s pid r s'. destruct (find_prop pid (props s)) as [p|] eqn:Hf; [|intro H; inversion H; auto].
+  destruct (p_status p) eqn:Hs; intro H; inversion H; auto; right; exists p; eexists; split; eauto.
+Qed.
+
+Lemma corrupt_wf : forall s pid r s', wf s -> corrupt s pid = (r, s') -> wf s'.
+Proof.
+  intros s pid r s' W H. apply corrupt_inv in H as [->|(p & st & Hf & Hst & ->)]; [assumption|].
+  apply (keep_step_wf s pid p (fun q => with_status q st) W Hf).
+  - destruct Hst as [[-> _]|[-> _]]; reflexivity.
+  - intros q; repeat split; reflexivity.
+  - destruct Hst as [[_ ->]|[_ ->]]; reflexivity.
+Qed.
+
 (* ------------------------------------------------------------------ every step *)
 Lemma init_wf : forall b c, wf (init b c).
 Proof. intros. constructor; cbn; try constructor; lia. Qed.
@@ -471,6 +516,7 @@ Proof.
     destruct W; constructor; cbn; auto.
   - destruct (bal s acct + delta <? 0); intro H; injection H as <- <- <-; [assumption|].
     destruct W; constructor; cbn; auto.
+  - destruct (corrupt s pid) as [r0 s0] eqn:E. intro H; injection H as <- <- <-. eapply corrupt_wf; eauto.
 Qed.
 
 Lemma run_wf : forall P kf ops s s' ev, wf s -> run P kf s ops = (s', ev) -> wf s'.
@@ -530,10 +576,13 @@ Lemma process_inactive_quiet : forall P s id s' ev,
 Proof.
   unfold process_inactive. intros until ev. intros Q.
   destruct (find_prop id (props s)) as [p|] eqn:Hf; [|intro H; inversion H; subst; assumption].
-  destruct (p_status p); try (intro H; inversion H; subst; assumption).
-  destruct (pay_out s p (burn_prevote P)) as [[s1 e1]|] eqn:Hp; [|discriminate].
-  intro H; inversion H; subst. apply pay_out_some in Hp as (A & _ & _ & D & _).
-  eapply quiet_upd; eauto.
+  destruct (p_status p); try solve [intro H; inversion H; subst; assumption]; try discriminate.
+  - destruct (pay_out s p (burn_prevote P)) as [[s1 e1]|] eqn:Hp; [|discriminate].
+    intro H; inversion H; subst. apply pay_out_some in Hp as (A & _ & _ & D & _).
+    eapply quiet_upd; eauto.
+  - destruct (pay_out s p false) as [[s1 e1]|] eqn:Hp; [|discriminate].
+    intro H; inversion H; subst. apply pay_out_some in Hp as (A & _ & _ & D & _).
+    eapply quiet_upd; eauto.
 Qed.
 
 Lemma process_active_quiet : forall P kf stk s id s' ev,
@@ -541,7 +590,11 @@ Lemma process_active_quiet : forall P kf stk s id s' ev,
 Proof.
   unfold process_active. intros until ev. intros Q.
   destruct (find_prop id (props s)) as [p|] eqn:Hf; [|intro H; inversion H; subst; assumption].
-  destruct (p_status p); try (intro H; inversion H; subst; assumption).
+  destruct (p_status p); try solve [intro H; inversion H; subst; assumption].
+  2:{ destruct (bad_active_dequeued_by_key P); [|discriminate].
+      destruct (pay_out s p false) as [[s1 e1]|] eqn:Hp; [|discriminate].
+      intro H; inversion H; subst. apply pay_out_some in Hp as (A & _ & _ & D & _).
+      eapply quiet_upd; eauto. }
   set (v := tally P kf (custom s) stk p).
   destruct (p_expedited p && negb (passes v)).
   { intro H; inversion H; subst. eapply (quiet_upd s s); eauto. }
@@ -610,6 +663,8 @@ Proof.
     destruct (negb (cparams_valid cp)); intro H; injection H as <- <- <-; [assumption|]. exact Q.
   - destruct (negb authorized); intro H; injection H as <- <- <-; [assumption|]. exact Q.
   - destruct (bal s acct + delta <? 0); intro H; injection H as <- <- <-; [assumption|]. exact Q.
+  - destruct (corrupt s pid) as [r0 s0] eqn:E. intro H; injection H as <- <- <-.
+    apply corrupt_inv in E as [->|(p & st & _ & _ & ->)]; [assumption|]. eapply (quiet_upd s s); eauto.
 Qed.
 
 Lemma run_quiet : forall P kf ops s s' ev,
@@ -636,6 +691,118 @@ Proof.
   pose proof (run_quiet _ _ _ _ _ _ (init_quiet b c) H H0) as [Q _]. lia.
 Qed.
 
+(* ------------------------------------------------------------------ no undecodable records *)
+(* guard: no stored proposal record is made undecodable *)
+Definition op_no_corrupt (o : op) : Prop := match o with OCorrupt _ => False | _ => True end.
+
+Definition ok_status (st : status) : Prop := is_bad st = false /\ st <> SStale.
+Definition healthy (s : state) : Prop := Forall (fun p => ok_status (p_status p)) (props s).
+
+Lemma healthy_upd : forall s s1 id g,
+  healthy s -> props s1 = props s ->
+  (forall q, ok_status (p_status q) -> ok_status (p_status (g q))) ->
+  healthy (set_props s1 (upd_prop id g (props s1))).
+Proof.
+  intros s s1 id g H Hp Hg. unfold healthy in *. cbn. rewrite Hp.
+  apply Forall_upd; [assumption|]. intros q Hq. apply Hg.
+  rewrite Forall_forall in H. apply H. eapply find_prop_In; eauto.
+Qed.
+
+Lemma healthy_find : forall s id p, healthy s -> find_prop id (props s) = Some p -> ok_status (p_status p).
+Proof. intros s id p H Hf. unfold healthy in H. rewrite Forall_forall in H. apply H. eapply find_prop_In; eauto. Qed.
+
+Lemma process_inactive_healthy : forall P s id s' ev,
+  healthy s -> process_inactive P s id = Some (s', ev) -> healthy s'.
+Proof.
+  unfold process_inactive. intros until ev. intros Q.
+  destruct (find_prop id (props s)) as [p|] eqn:Hf; [|intro H; inversion H; subst; assumption].
+  pose proof (healthy_find _ _ _ Q Hf) as [Hb Hst].
+  destruct (p_status p); try solve [intro H; inversion H; subst; assumption]; try discriminate.
+  destruct (pay_out s p (burn_prevote P)) as [[s1 e1]|] eqn:Hp; [|discriminate].
+  intro H; inversion H; subst. apply pay_out_some in Hp as (A & _).
+  eapply healthy_upd; eauto. intros q _. split; [reflexivity|discriminate].
+Qed.
+
+Lemma process_active_healthy : forall P kf stk s id s' ev,
+  healthy s -> process_active P kf stk s id = Some (s', ev) -> healthy s'.
+Proof.
+  unfold process_active. intros until ev. intros Q.
+  destruct (find_prop id (props s)) as [p|] eqn:Hf; [|intro H; inversion H; subst; assumption].
+  pose proof (healthy_find _ _ _ Q Hf) as [Hb Hst].
+  destruct (p_status p); try solve [intro H; inversion H; subst; assumption]; try discriminate.
+  set (v := tally P kf (custom s) stk p).
+  destruct (p_expedited p && negb (passes v)).
+  { intro H; inversion H; subst. eapply (healthy_upd s s); eauto. intros q _. split; [reflexivity|discriminate]. }
+  destruct (pay_out s p (burns v)) as [[s1 e1]|] eqn:Hp; [|discriminate].
+  apply pay_out_some in Hp as (A & _).
+  destruct (passes v).
+  - destruct (exec_msgs s1 (p_msgs p)) as [s2|] eqn:He.
+    + pose proof (exec_msgs_frame _ _ _ He) as (A2 & _).
+      intro H; inversion H; subst. eapply healthy_upd; eauto; [congruence|]. intros q _. split; [reflexivity|discriminate].
+    + intro H; inversion H; subst. eapply healthy_upd; eauto. intros q _. split; [reflexivity|discriminate].
+  - intro H; inversion H; subst. eapply healthy_upd; eauto. intros q _. split; [reflexivity|discriminate].
+Qed.
+
+Lemma deposited_ok_status : forall P kf cust now d a q,
+  ok_status (p_status q) -> ok_status (p_status (deposited P kf cust now d a q)).
+Proof.
+  intros until q. intros H. unfold deposited; cbn.
+  destruct (match p_status q with SDeposit => _ | _ => false end); [split; [reflexivity|discriminate]|exact H].
+Qed.
+
+Lemma step_healthy : forall P kf s o r s' ev,
+  healthy s -> op_no_corrupt o -> step P kf s o = (r, s', ev) -> healthy s'.
+Proof.
+  intros P kf s o r s' ev Q Hg. destruct o; cbn.
+  - destruct (submit P kf now s proposer ms amt expedited valid bad_denom) as [r0 s0] eqn:E.
+    intro H; injection H as <- <- <-. destruct r0;
+      try (apply submit_err in E; [subst; assumption|discriminate]).
+    apply submit_ok_inv in E as (_ & _ & E). apply add_deposit_ok_inv in E as (p & _ & _ & _ & ->).
+    unfold healthy in *. cbn. apply Forall_upd.
+    + apply Forall_app; split; [assumption|]. constructor; [split; [reflexivity|discriminate]|constructor].
+    + intros q Hq. apply deposited_ok_status. apply find_prop_In in Hq. apply in_app_or in Hq as [Hq|[<-|[]]].
+      * rewrite Forall_forall in Q. now apply Q.
+      * split; [reflexivity|discriminate].
+  - destruct ((amt <? 0) || ((amt =? 0) && negb bad_denom)); [intro H; injection H as <- <- <-; assumption|].
+    destruct (add_deposit P kf now s pid depositor amt bad_denom) as [r0 s0] eqn:E.
+    intro H; injection H as <- <- <-. destruct r0;
+      try (apply add_deposit_err in E; [subst; assumption|discriminate]).
+    apply add_deposit_ok_inv in E as (p & _ & _ & _ & ->).
+    unfold healthy in *. cbn. apply Forall_upd; [assumption|]. intros q Hq. apply deposited_ok_status.
+    rewrite Forall_forall in Q. apply Q. eapply find_prop_In; eauto.
+  - destruct (vote s pid voter opts weighted) as [r0 s0] eqn:E.
+    intro H; injection H as <- <- <-. apply vote_props in E as [->|(p & _ & _ & ->)]; [assumption|].
+    eapply (healthy_upd s s); eauto.
+  - intro H. apply cancel_inv in H as [(_ & -> & _)|(p & _ & _ & _ & _ & Hp & _)]; [assumption|].
+    unfold healthy in *. rewrite Hp. apply Forall_upd; [assumption|]. intros q Hq. cbn. split; [reflexivity|discriminate].
+  - destruct (end_block P kf t stk s) as [[s1 e1]|] eqn:E; intro H; injection H as <- <- <-; [|assumption].
+    unfold end_block in E.
+    destruct (fold_ids (process_inactive P) _ s) as [[s2 e2]|] eqn:E1; [|discriminate].
+    destruct (fold_ids (process_active P kf stk) _ s2) as [[s3 e3]|] eqn:E2; [|discriminate].
+    injection E as <- <-.
+    eapply (fold_ids_pres healthy); [|eapply (fold_ids_pres healthy); [|exact Q|exact E1]|exact E2].
+    + intros; eapply process_active_healthy; eauto.
+    + intros; eapply process_inactive_healthy; eauto.
+  - destruct (negb authorized); [intro H; injection H as <- <- <-; assumption|].
+    destruct (negb (cparams_valid cp)); intro H; injection H as <- <- <-; [assumption|]. exact Q.
+  - destruct (negb authorized); intro H; injection H as <- <- <-; [assumption|]. exact Q.
+  - destruct (bal s acct + delta <? 0); intro H; injection H as <- <- <-; [assumption|]. exact Q.
+  - contradiction.
+Qed.
+
+Lemma run_healthy : forall P kf ops s s' ev,
+  healthy s -> Forall op_no_corrupt ops -> run P kf s ops = (s', ev) -> healthy s'.
+Proof.
+  induction ops as [|o r IH]; cbn; intros s s' ev Q Hg H.
+  - inversion H; subst; assumption.
+  - inversion Hg; subst.
+    destruct (step P kf s o) as [[r0 s1] e1] eqn:E. destruct (run P kf s1 r) as [s2 e2] eqn:E2.
+    inversion H; subst. eapply IH; [|eassumption|exact E2]. eapply step_healthy; eauto.
+Qed.
+
+Lemma init_healthy : forall b c, healthy (init b c).
+Proof. intros. constructor. Qed.
+
 (* ------------------------------------------------------------------ the end blocker never fails *)
 Lemma pay_out_total : forall s p burn,
   wf s -> gov_spent s = 0 -> In p (props s) -> is_open (p_status p) = true ->
@@ -647,19 +814,23 @@ Proof.
   destruct burn; discriminate.
 Qed.
 
-Lemma process_inactive_total : forall P s id, wf s -> quiet s -> process_inactive P s id <> None.
+Definition calm (s : state) : Prop := quiet s /\ healthy s.
+
+Lemma process_inactive_total : forall P s id, wf s -> calm s -> process_inactive P s id <> None.
 Proof.
-  intros P s id W [Q _]. unfold process_inactive.
+  intros P s id W [[Q _] Hh]. unfold process_inactive.
   destruct (find_prop id (props s)) as [p|] eqn:Hf; [|discriminate].
-  destruct (p_status p) eqn:Hs; try discriminate.
+  pose proof (healthy_find _ _ _ Hh Hf) as [Hb Hst].
+  destruct (p_status p) eqn:Hs; try discriminate; try (exfalso; apply Hst; reflexivity).
   destruct (pay_out s p (burn_prevote P)) as [[s1 e1]|] eqn:Hp; [discriminate|].
   exfalso. eapply pay_out_total; eauto; [eapply find_prop_In; eauto|rewrite Hs; reflexivity].
 Qed.
 
-Lemma process_active_total : forall P kf stk s id, wf s -> quiet s -> process_active P kf stk s id <> None.
+Lemma process_active_total : forall P kf stk s id, wf s -> calm s -> process_active P kf stk s id <> None.
 Proof.
-  intros P kf stk s id W [Q _]. unfold process_active.
+  intros P kf stk s id W [[Q _] Hh]. unfold process_active.
   destruct (find_prop id (props s)) as [p|] eqn:Hf; [|discriminate].
+  pose proof (healthy_find _ _ _ Hh Hf) as [Hb Hst].
   destruct (p_status p) eqn:Hs; try discriminate.
   destruct (p_expedited p && negb (passes (tally P kf (custom s) stk p))); [discriminate|].
   destruct (pay_out s p _) as [[s1 e1]|] eqn:Hp.
@@ -668,10 +839,10 @@ Proof.
 Qed.
 
 Lemma fold_ids_total : forall f,
-  (forall s id, wf s -> quiet s -> f s id <> None) ->
+  (forall s id, wf s -> calm s -> f s id <> None) ->
   (forall s id s' ev, wf s -> f s id = Some (s', ev) -> wf s') ->
-  (forall s id s' ev, quiet s -> f s id = Some (s', ev) -> quiet s') ->
-  forall ids s, wf s -> quiet s -> fold_ids f ids s <> None.
+  (forall s id s' ev, calm s -> f s id = Some (s', ev) -> calm s') ->
+  forall ids s, wf s -> calm s -> fold_ids f ids s <> None.
 Proof.
   intros f Ht Hw Hq. induction ids as [|id r IH]; cbn; intros s W Q; [discriminate|].
   destruct (f s id) as [[s1 e1]|] eqn:E; [|exfalso; eapply Ht; eauto].
@@ -679,25 +850,36 @@ Proof.
   destruct (fold_ids f r s1) as [[s2 e2]|]; [discriminate|contradiction].
 Qed.
 
-Theorem end_block_never_fails : forall P kf b c ops s ev t stk,
-  Forall op_no_govsend ops ->
-  run P kf (init b c) ops = (s, ev) ->
-  end_block P kf t stk s <> None.
+Lemma process_inactive_calm : forall P s id s' ev, calm s -> process_inactive P s id = Some (s', ev) -> calm s'.
+Proof. intros P s id s' ev [Q H] E. split; [eapply process_inactive_quiet|eapply process_inactive_healthy]; eauto. Qed.
+Lemma process_active_calm : forall P kf stk s id s' ev, calm s -> process_active P kf stk s id = Some (s', ev) -> calm s'.
+Proof. intros P kf stk s id s' ev [Q H] E. split; [eapply process_active_quiet|eapply process_active_healthy]; eauto. Qed.
+
+Lemma end_block_total : forall P kf t stk s, wf s -> calm s -> end_block P kf t stk s <> None.
 Proof.
-  intros until stk. intros Hg Hr.
-  pose proof (run_wf _ _ _ _ _ _ (init_wf b c) Hr) as W.
-  pose proof (run_quiet _ _ _ _ _ _ (init_quiet b c) Hg Hr) as Q.
-  unfold end_block.
+  intros P kf t stk s W Q. unfold end_block.
   destruct (fold_ids (process_inactive P) _ s) as [[s1 e1]|] eqn:E1.
   - assert (W1 : wf s1) by (eapply fold_ids_wf; [|exact W|exact E1]; intros; eapply process_inactive_wf; eauto).
-    assert (Q1 : quiet s1) by (eapply (fold_ids_pres quiet); [|exact Q|exact E1]; intros; eapply process_inactive_quiet; eauto).
+    assert (Q1 : calm s1) by (eapply (fold_ids_pres calm); [|exact Q|exact E1]; intros; eapply process_inactive_calm; eauto).
     destruct (fold_ids (process_active P kf stk) _ s1) as [[s2 e2]|] eqn:E2; [discriminate|].
     exfalso. revert E2. apply fold_ids_total; auto.
     + intros; now apply process_active_total.
     + intros; eapply process_active_wf; eauto.
-    + intros; eapply process_active_quiet; eauto.
+    + intros; eapply process_active_calm; eauto.
   - exfalso. revert E1. apply fold_ids_total; auto.
     + intros; now apply process_inactive_total.
     + intros; eapply process_inactive_wf; eauto.
-    + intros; eapply process_inactive_quiet; eauto.
+    + intros; eapply process_inactive_calm; eauto.
+Qed.
+
+(* for every history in which governance does not spend from its own account and no stored record is
+   made undecodable *)
+Theorem end_block_never_fails : forall P kf b c ops s ev t stk,
+  Forall op_no_govsend ops -> Forall op_no_corrupt ops ->
+  run P kf (init b c) ops = (s, ev) ->
+  end_block P kf t stk s <> None.
+Proof.
+  intros until stk. intros Hg Hc Hr. apply end_block_total.
+  - eapply run_wf; [apply init_wf|exact Hr].
+  - split; [eapply run_quiet; [apply init_quiet|exact Hg|exact Hr]|eapply run_healthy; [apply init_healthy|exact Hc|exact Hr]].
 Qed.
